@@ -145,6 +145,12 @@ func baseCorpus(r *core.Run, rng *rand.Rand, perContainer int, withRepo bool) ([
 	for _, k := range []struct{ kind, dk string }{{"png", "png0"}, {"jpeg", "jpeg0"}, {"heif", "heif0"}, {"other", "gif"}, {"other", "rw2"}} {
 		out = append(out, fileInput{Name: "gen:noexif/" + k.dk, Kind: k.kind, Data: decodeKindBytes(k.dk, tl, tl, rng), Gen: true})
 	}
+	// XMP packets with long runs of white space between tags and in front of attributes (around the 128-byte look-ahead)
+	for _, pad := range []int{100, 119, 121, 124, 126, 127, 128, 250, 383} {
+		ws := strings.Repeat(" ", pad)
+		pk := `<x:xmpmeta xmlns:x="adobe:ns:meta/">` + ws + `<rdf:RDF xmlns:rdf="http://www.w3.org/1999/02/22-rdf-syntax-ns#">` + "\n" + `<rdf:Description rdf:about=""` + ws + `xmlns:tiff="http://ns.adobe.com/tiff/1.0/" tiff:Make="PadMake"` + ws[:pad/2] + `tiff:Model="PadModel">` + ws + `<tiff:Software>pad ` + fmt.Sprint(pad) + `</tiff:Software>` + ws + `</rdf:Description></rdf:RDF></x:xmpmeta>` + strings.Repeat("\n", 300)
+		out = append(out, fileInput{Name: fmt.Sprintf("gen:xmp/ws-run-%d", pad), Kind: "xmp", Data: []byte(pk), Gen: true})
+	}
 	out = append(out, fileInput{Name: "gen:xmp/sample", Kind: "xmp", Data: []byte(sampleXMP), Gen: true})
 	out = append(out, fileInput{Name: "gen:xmp/junk+sample", Kind: "xmp", Data: append([]byte(strings.Repeat("junk <a> ", 30)), sampleXMP...), Gen: true})
 	if withRepo {
